@@ -87,9 +87,11 @@ def dset {β} (k : Str) (v : β) : List (Str × β) → List (Str × β)
   | [] => [(k, v)]
   | (k', v') :: r => if k' = k then (k', v) :: r else (k', v') :: dset k v r
 
+/-- `del d[k]` / `d.pop(k, None)`: keys are unique in a Python dict, so removing every entry with the key
+    is the same as removing the entry. -/
 def ddel {β} (k : Str) : List (Str × β) → List (Str × β)
   | [] => []
-  | (k', v') :: r => if k' = k then r else (k', v') :: ddel k r
+  | (k', v') :: r => if k' = k then ddel k r else (k', v') :: ddel k r
 
 def dhas {β} (k : Str) (d : List (Str × β)) : Bool := (dget k d).isSome
 
